@@ -44,7 +44,7 @@ uint64_t clock_tic(struct clock* c) { return 0; }
 double clock_toc_ms(struct clock* c) { return 0; }
 void clock_sleep_ms(struct clock* c, float ms) {}
 
-#if KERNEL != 1
+#if KERNEL != 1 && KERNEL != 4
 /* bin2: width and height are enumerated by loops with constant trip counts, so that after
  * unwinding every block index and the buffer base are constants and CBMC's bounds checks decide
  * each access directly; with a symbolic width or height the 32-byte vector stores at symbolic
@@ -69,7 +69,35 @@ main(void)
     uint32_t w = ND(uint32_t), h = ND(uint32_t);
     VASSUME(w >= 1 && w <= WMAX && h >= 1 && h <= HMAX);
 #endif
-#if KERNEL == 1
+#if KERNEL == 4
+    /* simcam_get_frame fills EXACTLY bytes_of_image(shape) bytes of the caller's buffer: the caller's
+     * buffer is the last bytes_of_image bytes of the arena (one byte more leaves the object); the
+     * camera's own frame buffer is as large as tier 1 shows it to be (aligned extent) */
+    static struct SimulatedCamera cam;
+    memset(&cam.im.shape, 0, sizeof cam.im.shape);
+    cam.im.shape.dims.channels = 1; cam.im.shape.dims.width = w; cam.im.shape.dims.height = h; cam.im.shape.dims.planes = 1;
+    uint8_t ty4 = ND(uint8_t);
+    VASSUME(ty4 < SampleTypeCount);
+    cam.im.shape.type = (enum SampleType)ty4;
+    compute_strides(&cam.im.shape);
+    size_t nb = bytes_of_image(&cam.im.shape), E4 = aligned_bytes_of_image(&cam.im.shape);
+    VASSERT(nb <= E4 && E4 <= ARENA, "extent formula");
+    static uint8_t frame_store[ARENA] __attribute__((aligned(32)));
+    cam.im.frame_data = frame_store + (ARENA - E4);
+    cam.streamer.is_running = 1;
+    cam.im.frame_id = 0; cam.im.last_emitted_frame_id = -1; /* a fresh frame is published: no waiting */
+    size_t given = ND(size_t);
+    VASSUME(given >= nb && given <= ARENA); /* the caller may offer more room than needed; it is only promised nb bytes are touched */
+    struct ImageInfo info;
+    memset(&info, 0, sizeof info);
+    size_t n4 = given;
+    enum DeviceStatusCode rc4 = simcam_get_frame(&cam.camera, arena + (ARENA - nb), &n4, &info);
+    VASSERT(rc4 == Device_Ok, "get_frame failed although a frame was published");
+    VASSERT(info.shape.dims.width == w && info.shape.dims.height == h && info.shape.type == cam.im.shape.type, "C17: frame call reports a shape other than the camera's");
+    COVER(nb < E4 && nb > 8);
+    WITNESS_END();
+    return 0;
+#elif KERNEL == 1
     struct ImageShape s;
     memset(&s, 0, sizeof s);
     s.dims.channels = 1; s.dims.width = w; s.dims.height = h; s.dims.planes = 1;
